@@ -105,7 +105,17 @@ def handle : List String → String
         let sched : List Nat := (List.range waited.length).map (fun i => ((sched i) / 1000).toNat)
         let short := (waited.zip sched).filter (fun (g, want) => g * 100 < want * 99)
         if !short.isEmpty then s!"SPEC key=wait-shorter-than-schedule-{kind} gaps_us={waited} schedule_us={sched}"
-        else s!"OK tags=rate,{kind},attempts{ts.length}"
+        else
+          -- … and the attempts as a whole stay under the schedule: the k-th one cannot come before the
+          -- first k−1 waits have passed (less the immediate retries allowed), however the attempts are
+          -- spread over goroutines (two loops each on its own schedule double the rate)
+          let t0 := ts.headD 0
+          let cum : List Nat := (List.range ts.length).map (fun k =>
+            ((List.range (k - allowedImmediate)).map (fun i => ((GV.Retry.sched i) / 1000).toNat)).foldl (· + ·) 0)
+          let early := ((ts.zip cum).zipIdx).filter (fun ((t, need), _) => (t - t0) * 100 < need * 99)
+          match early.head? with
+          | some ((t, need), k) => s!"SPEC key=rate-above-schedule-{kind} attempt={k} at_us={t - t0} earliest_us={need} attempts={ts.length}"
+          | none => s!"OK tags=rate,{kind},attempts{ts.length}"
   | _ => "BAD command"
 
 end GV.Drive.C17
